@@ -115,7 +115,8 @@ CHECKS.update({
         TRUST + "Outside: sqrt/log2/ln/pow on 64/128-bit types (memory), most powi exponents.", KANI, "DESIGN.md 4 C12"),
     "C13": (
         "Bounded model checking on neighbourhoods: for each of 2^8 consecutive operands around 0, 1, powers of two, the Err threshold, "
-        "the maximum and seeded points, sqrt::<I9F23> / <U9F23> satisfies (r-4)^2 <= x*2^F <= (r+4)^2 in exact integer arithmetic.",
+        "the maximum and seeded points, sqrt::<I9F23> / <U9F23> satisfies (r-4)^2 <= x*2^F <= (r+4)^2 in exact integer arithmetic; "
+        "single-operand witnesses on I32F32, I16F48 and the cross pairs I9F23->I32F32, I32F32->I64F64, U9F23->U32F32.",
         TRUST + "Coverage is a union of small neighbourhoods, not the operand range; wide types only by one concrete witness of the "
         "known defect.", KANI + " (algebraic oracle)", "DESIGN.md 4 C13"),
     "C14": (
@@ -126,19 +127,21 @@ CHECKS.update({
         TRUST + "mpmath.iv. Coverage is a union of small neighbourhoods.", KANI + " + interval-arithmetic enclosures", "DESIGN.md 4 C14"),
     "C15": (
         "Bounded model checking: exp::<I9F23> on neighbourhoods of 2^8 operands against interval enclosures (2^-20 relative + 64 ulp); "
-        "powi conventions (0^n, x^0, x^1, 0^y) and n in {2,3} for every operand against the exact rational power.",
+        "powi conventions (0^n, x^0, x^1, 0^y) and n in {2,3} for every operand against the exact rational power; single-operand "
+        "witnesses of exp on I32F32, I16F48, I64F64 and cross type pairs.",
         TRUST + "mpmath.iv. Outside: pow accuracy, |n| > 3, wide types.", KANI + " + interval-arithmetic enclosures", "DESIGN.md 4 C15"),
     "C16": (
         "Bounded model checking: sin/cos::<I9F23> for EVERY angle of the instantiated intervals of width 0.25 lie within 2^-16 of a "
         "piecewise-linear enclosure of the true function (thorough: the whole primary range) and inside [-1-2^-16, 1+2^-16]; the "
         "argument reduction is exact for every |x| <= 200 (cut-point hook), which with the 1-Lipschitz lemma carries the primary-range "
-        "result to far angles.",
+        "result to far angles; single-angle witnesses (pi/4, 1, -199.9, ...) on I9F23, I32F32, I16F48, I64F64.",
         TRUST + "mpmath.iv, the observe() hook. Outside: tan accuracy, CORDIC accuracy on wide types.",
         KANI + " + interval-arithmetic enclosures + cut-point hook", "DESIGN.md 4 C16"),
     "C17": (
         "Bounded model checking with the iteration-counter hook: the solver proves for every operand that no call exceeds the TIGHT "
         "budget W+32 loop iterations (unwinding assertions on); a counterexample is replayed natively against the property's budget "
-        "4W+64 and reported only if it exceeds that.",
+        "4W+64 and reported only if it exceeds that; single-operand witnesses on the wide types and at the operands where an "
+        "iterate-until-converged Newton loop cycles.",
         TRUST + "the tick() hook (add-only). Outside: sqrt/ln/log2/exp on wide types (their loops have literal bounds), pow.",
         KANI + " + budgeted loop counter hook", "DESIGN.md 4 C17"),
     "C18": (
